@@ -93,7 +93,7 @@ static void do_acts(ActC *acts, int n) {
         case 'K': kill(getpid(), acts[i].arg); pause(); break;
         case 'E': exit(0);
         case 'U': _exit(0);
-        case 'Z': for (;;) sleep(100);
+        case 'Z': if (acts[i].arg) die_in(1); for (;;) sleep(100);
         case 'l': cgreen_mocks_are(loose_mocks); break;
         case 'g': cgreen_mocks_are(learning_mocks); break;
         case 's': cgreen_mocks_are(strict_mocks); break;
@@ -139,6 +139,7 @@ static int parse_acts(char *s, ActC **out) {
         else if (!strcmp(tok, "E")) a.kind = 'E';
         else if (!strcmp(tok, "U")) a.kind = 'U';
         else if (!strcmp(tok, "Z")) a.kind = 'Z';
+        else if (!strcmp(tok, "ZD")) { a.kind = 'Z'; a.arg = 1; }
         else if (tok[0] == 'K') { a.kind = 'K'; a.arg = atoi(tok + 1); }
         else if (!strcmp(tok, "ML")) a.kind = 'l';
         else if (!strcmp(tok, "MG")) a.kind = 'g';
